@@ -54,13 +54,12 @@ def cls_pushpromise_writer(op):
     return op.startswith("frame.write PUSH_PROMISE ")
 
 
-def cls_settings_zero_value(op):
-    if not op.startswith("frame.write SETTINGS ") or field(op, "ack") != "0":
-        return False
-    return any(field(op, k) == "0" for k in ("ts", "mcs", "ws"))
+CLASSES = {"pushpromise_writer": cls_pushpromise_writer}
 
-
-CLASSES = {"pushpromise_writer": cls_pushpromise_writer, "settings_zero_value": cls_settings_zero_value}
+# Witnesses of findings that have been repaired (F35: SETTINGS values of zero were not written): replayed on every run of
+# the property like generated operations, compared with the model and judged by the monitors with nothing excused, so
+# the defect is reported if it returns.
+REGRESSION = {"C05": ["known/F35.ops"]}
 
 
 # ------------------------------------------------------------------ Spec-vs-x/net sanity
@@ -311,9 +310,20 @@ def run_known(ctx, prop):
                                         "and prove the full theorem" % k["id"], detail=k))
 
 
+def regression_ops(ctx, prop):
+    ops = []
+    for path in REGRESSION.get(prop, []):
+        full = os.path.join(ctx.root, path)
+        if not os.path.exists(full):
+            ctx.broken.append(dict(what="regression input %s is missing" % path, detail=""))
+            continue
+        ops += [l.rstrip("\n") for l in open(full) if l.strip() and not l.startswith("#")]
+    return ops
+
+
 def run_prop(ctx, prop):
     lines = gen_ops(ctx)
-    ops = select(lines, prop.lower())
+    ops = regression_ops(ctx, prop) + select(lines, prop.lower())
     o, i, m = ctx.gen_run_compare(ctx.pid, AREA, ctx.tier, ctx.seed, ctx.log, extra_ops=ops)
     cov, diffs = compare(ctx, AREA, o, [split(x)[0] for x in i], [split(x)[0] for x in m],
                          nontrivial=lambda op, res: not res.startswith("err io"))
@@ -323,6 +333,7 @@ def run_prop(ctx, prop):
     run_known(ctx, prop)
     cov["monitor_stats"] = dict(stats)
     cov["known_class_hits"] = dict(known_hits)
+    cov["regression_inputs"] = REGRESSION.get(prop, [])
     cov["exhaustive"] = False
     return cov
 
